@@ -195,12 +195,18 @@ impl Engine for CrashEngine {
         knobs.insert("nested_points".into(), if thorough { -1 } else { 3 });
         knobs.insert("reopen_again".into(), if property == "C04" { 2 } else { c.below(2) as i64 });
         knobs.insert("probe".into(), (property != "C04") as i64);
+        // window-edge family (own tape): see run_workload
+        let mut we = Tape::fresh(mix(seed, 0x3ED6E));
+        if !ttl_focus && we.chance(1, 6) {
+            knobs.insert("filler_blocks".into(), 236 + we.below(18) as i64);
+        }
         // the workload ends with a clean drop of the store, which acknowledges everything that
         // completed before it (C02: "or the store has been dropped cleanly on a healthy device");
         // crash points may then fall inside or after the close
         knobs.insert("close_ack".into(), Tape::fresh(mix(seed, 0xC105E)).chance(1, 3) as i64);
         // let time pass between the crash and the restart (so that fresh TTLs have expired)
         knobs.insert("downtime_ms".into(), if ttl_focus { *c.pick(&[0i64, 1_500, 2_500, 6_000, 4_000_000]) } else if ttl { *c.pick(&[0i64, 0, 2_500]) } else { 0 });
+        let store = if knobs.contains_key("filler_blocks") { StoreCfg { data_blocks: 256 + store.data_blocks, ..store } } else { store };
         Scenario {
             engine: "crash".into(),
             property: property.into(),
@@ -462,6 +468,27 @@ fn run_workload(sim: &Arc<Sim>, sc: &Scenario, crash_at_call: Option<u64>, repor
     let rec = Arc::new(Recorder::default());
     let problems: Arc<Mutex<Vec<(String, String)>>> = Arc::new(Mutex::new(Vec::new()));
     let counters: Arc<Mutex<BTreeMap<String, u64>>> = Arc::new(Mutex::new(BTreeMap::new()));
+    // "window edge" family: one large filler record first, so that the workload's records sit
+    // around the end of recovery's first scan window (256 blocks) instead of well inside it
+    let filler_blocks = sc.knob("filler_blocks", 0) as usize;
+    if filler_blocks > 0 && !disk.is_dead() {
+        let key = b"zz:filler".to_vec();
+        let value = harness::plain_value(251, 9, 1, filler_blocks * 4096 - 300);
+        let inserted = store.insert(&key, &value);
+        let ret = sim.next_event();
+        if inserted.is_ok() && !disk.is_dead() {
+            if let Some(vk) = store.verif_key(&key) {
+                rec.hist.lock().unwrap().entry(key.clone()).or_default().push(Trans {
+                    state: Some(Gen { value, ts: vk.timestamp, expiry: 0 }),
+                    ret,
+                });
+            }
+            let invoke = sim.next_event();
+            if store.flush().is_ok() && !disk.is_dead() {
+                rec.acks.lock().unwrap().push((invoke, sim.next_event()));
+            }
+        }
+    }
     let mut handles = Vec::new();
     let c12 = sc.property == "C12";
     for (ci, ops) in sc.clients.iter().enumerate().skip(1) {
